@@ -510,6 +510,7 @@ fn join_case(reg: Reg, front: Front, rng: &mut Prng, col: &mut Collector) {
         let after = dev.snapshot();
         check_windows(reg, front, true, &snap, &after, matches!(resp, Resp::JoinSuccess), &model, &evs, txd, lead, col, "join", json!({"attempt": a, "bias": bias}));
         if last && matches!(resp, Resp::JoinSuccess) {
+            join_delay_check(reg, front, &ja, &after, "first-join", col);
             // first data uplinks: windows follow the accept's settings (already in the snapshot)
             // and the data rate the frame is really sent at, which a still-active join bias may
             // force away from the one the application configured
@@ -531,6 +532,51 @@ fn join_case(reg: Reg, front: Front, rng: &mut Prng, col: &mut Collector) {
                 let after = dev.snapshot();
                 check_windows(reg, front, false, &snap, &after, false, &model, &evs, txd, lead, col, "first-after-join", json!({"dl_settings": ja.dl_settings, "rx_delay": ja.rx_delay, "bias": bias, "app_dr": app_dr, "n": n}));
             }
+            // the network changes the delay, then the device joins again: the new accept's delay
+            // (0 and 1 both mean one second) replaces whatever the old session had
+            if rng.bool() {
+                if let Some((nk, ak, addr)) = dev.session_keys() {
+                    let net = Net { nwk: nk, app: ak, addr };
+                    let del = rng.range(2, 16) as u8;
+                    let f = net.mac_downlink(1, &rx_timing_setup_req(del), rng.bool());
+                    let _ = dev.transact(Action::Send { data: &[9], port: 1, confirmed: false }, &Script::rx1(f));
+                    let ja2 = JoinAcceptDesc { join_nonce: rng.below(1 << 24) as u32, net_id: 1, dev_addr: rng.next_u32(), dl_settings: reg.rx2_default().1, rx_delay: *rng.pick(&[0u8, 0, 1, 3, 15]), cf_list: None };
+                    let w = encode_join_accept(&creds.app_key, &ja2);
+                    let r2 = dev.transact(Action::Join, &Script::rx1(w));
+                    if let Resp::Panic(m, l) = &r2 {
+                        col.violation(&format!("C10|panic|rejoin|{}|{}", reg.name(), short_loc(l)), "device panicked during a re-join", json!({"msg": m, "loc": l}));
+                        return;
+                    }
+                    if matches!(r2, Resp::JoinSuccess) {
+                        col.event("rejoin_after_rxtiming");
+                        let after2 = dev.snapshot();
+                        join_delay_check(reg, front, &ja2, &after2, "re-join", col);
+                        dev.set_rng_next(rng.next_u32());
+                        let snap = dev.snapshot();
+                        let ev1 = dev.ev_len();
+                        let r = dev.transact(Action::Send { data: &[7], port: 1, confirmed: false }, &Script::silent());
+                        if !matches!(r, Resp::Panic(..)) {
+                            let evs = dev.evs_since(ev1);
+                            let after = dev.snapshot();
+                            check_windows(reg, front, false, &snap, &after, false, &model, &evs, txd, lead, col, "first-after-rejoin", json!({"rx_delay": ja2.rx_delay, "old_session_del": del}));
+                        }
+                    }
+                }
+            }
         }
+    }
+}
+
+
+/// The delay in force after a successful join is the one the accept carries.
+fn join_delay_check(reg: Reg, front: Front, ja: &JoinAcceptDesc, after: &lorawan_device::verif::Snapshot, what: &str, col: &mut Collector) {
+    let want = if ja.rx_delay < 2 { 1000 } else { ja.rx_delay as u32 * 1000 };
+    col.event("join_delay_checked");
+    if after.rx1_delay != want {
+        col.violation(
+            &format!("C10|rx-delay-not-as-commanded|{}|del={}", what, if ja.rx_delay == 15 { "15".to_string() } else if ja.rx_delay < 2 { "0-1".to_string() } else { "2-14".to_string() }),
+            "the RX1 delay in force after a join differs from the JoinAccept's RxDelay",
+            json!({"region": reg.name(), "front": front.name(), "accept_rx_delay": ja.rx_delay, "in_force_ms": after.rx1_delay}),
+        );
     }
 }
